@@ -144,4 +144,4 @@ Fixpoint has_multi_set (v : pv) : bool :=
 Definition marsh_codes : list Z := [48; 78; 84; 70; 83; 46; 105; 73; 108; 102; 120; 115; 116; 82; 117; 40; 91; 123; 60; 62].
 Definition marsh_cfg : cfg :=
   {| strict := false; magic_int := 0; version := [3; 0]; flag_ref_ok := false; mask_flag := false; unknown_err := true;
-     code_ok := fun t => zmem t marsh_codes |}.
+     code_ok := fun t => zmem t marsh_codes; neg_size_err := true |}.
